@@ -10,8 +10,11 @@ CONSTANTS
   Trim = TRUE
   TrOnly = FALSE
   AxisBy = "dims"
+  StepPrec = "step"
   QueryCast = "none"
 CONSTRAINT Export
+INVARIANT ImplStep
+INVARIANT LawDenoted
 INVARIANT ImplCountWhenWhole
 INVARIANT ImplCountFloorCeil
 INVARIANT ImplInside
